@@ -6,7 +6,7 @@ import vlib
 META = {
     "category": "model_checking",
     "text": "Cache.tla transcribes src/net/client/cache.rs (key, the exact->Ad->Do->RD=1 lookup lattice with the entries it derives and inserts, validity(), expiry test, decrement_ttl, remove_dnssec, prepare_for_insert) and states the property over a ghost log of everything upstream said: served-from-cache responses were said by upstream for the same question and compatible RD/CD/AD/DO flags, TTLs aged by exactly the whole seconds elapsed, never served past the smallest TTL / max_validity / the per-class bound, no RRSIG/NSEC/NSEC3 or AD to queries that did not ask. TLC checks this on every transition, exhaustively for histories of 3-5 steps over three constant sets (flag lattice; ten upstream response classes x TTL vectors x three configurations; two names x two types x CD x spellings x bypass queries) with Evict always enabled, and seven seeded spec mutants must each be caught. TLC-generated behaviours (exhaustive short ones and long simulated ones) are executed on the real cache::Connection over a scripted upstream under tokio's paused clock and compared after every operation; 2000-step random histories recorded from the real cache are validated by TLC against the spec with the property evaluated in every state.",
-    "note": "Trusted: TLC, the transcription in Cache.tla, the harness's message construction/projection (names and rdata compared case-insensitively, message ID not compared). One request at a time (no concurrent requests on one cache). moka's capacity eviction is not modelled (Evict(k) is always enabled in the model; the bindings run below capacity). Upstream is assumed well-behaved (DNSSEC records only to DO queries, AD only to AD/DO queries) and well-formed. Histories beyond the explored depth are sampled, not enumerated.",
+    "note": "Config: the documented defaults (DocDefaults) are exercised through Config::new() with no validity setter called, and every setter's clamping is compared with the documented limits via Config's Debug output. Trusted: TLC, the transcription in Cache.tla, the harness's message construction/projection (names and rdata compared case-insensitively, message ID not compared). One request at a time (no concurrent requests on one cache). moka's capacity eviction is not modelled (Evict(k) is always enabled in the model; the bindings run below capacity). Upstream is assumed well-behaved (DNSSEC records only to DO queries, AD only to AD/DO queries) and well-formed. Histories beyond the explored depth are sampled, not enumerated.",
     "technique": "TLA+ spec (Cache.tla) + TLC exhaustive over bounded histories with hidden ghost log; spec->impl behaviour replay under virtual time; impl->spec trace validation",
     "design_ref": "DESIGN.md §4 C20",
 }
@@ -71,10 +71,11 @@ def _run(ctx, thorough, tmp_cfgs):
         # stages that do not touch the real code (never set by bin/check users)
         _bindings(ctx, thorough, tmp_cfgs, tag)
         return
-    cfgs = ["MC_Cache", "MC_Cache_classes", "MC_Cache_maxval", "MC_Cache_part"]
+    cfgs = ["MC_Cache", "MC_Cache_classes", "MC_Cache_maxval", "MC_Cache_default",
+            "MC_Cache_part"]
     if thorough:
         cfgs = ["MC_Cache", "MC_Cache_thorough", "MC_Cache_classes_thorough",
-                "MC_Cache_maxval", "MC_Cache_part_thorough"]
+                "MC_Cache_maxval", "MC_Cache_default", "MC_Cache_part_thorough"]
     for cfg in cfgs:
         base = cfg
         mc = ctx.tlc("MC_Cache", cfg, workers=8, coverage=False,
@@ -197,6 +198,23 @@ def _bindings(ctx, thorough, tmp_cfgs, tag):
     if gen3.ncases < 1000:
         raise vlib.ToolError("generator produced too few behaviours")
     ctx.replay_cases("replay_cache", cases3, label="cache-maxval")
+    # the documented default configuration, obtained from Config::new() with
+    # no validity setter called, around its 30 s / 1 h bounds
+    cases4 = os.path.join(ctx.work, "cases-default.ndjson")
+    gen4 = ctx.tlc("Gen_Cache", "Gen_Cache_default", workers=8, coverage=False,
+                   label="gen-default", cases_to=cases4, count=False)
+    ctx.require_ok(gen4, "Gen_Cache_default")
+    if gen4.ncases < 1000:
+        raise vlib.ToolError("generator produced too few behaviours")
+    ctx.replay_cases("replay_cache", cases4, label="cache-default")
+    # Config: documented defaults and every setter's clamping
+    cases5 = os.path.join(ctx.work, "cases-config.ndjson")
+    gen5 = ctx.tlc("Gen_Cache", "Gen_Cache_cfg", workers=1, coverage=False,
+                   label="gen-config", cases_to=cases5, count=False)
+    ctx.require_ok(gen5, "Gen_Cache_cfg")
+    if gen5.ncases < 50:
+        raise vlib.ToolError("config generator produced too few cases")
+    ctx.replay_cases("replay_cache", cases5, label="cache-config")
     # cached transport failures against max_validity (named deviation)
     ctx.replay_cases("replay_cache", _dev_cases(ctx, tmp_cfgs, tag), label="cache-err-maxval")
     # long random behaviours over the large constants
